@@ -318,3 +318,9 @@ def C17(sc, tier, replay, t0):
                      "a cluster's ZooKeeper events are consumed by one goroutine (waitForUriUpdates), so scenarios have at most one updater thread"],
         trusted_base=MC_ASSUME + WIRE_TRUST + ["verifsync shim", "overlay/d2/verif_export.go", "Go race detector (supplementary)"],
         extra_cov={"race_pass": race_runs})
+
+
+C09 = codec_check("C09", "C09", "model_checking", gens=("v2",),
+    rule="exhaustive at the seam where order enters: every permutation of keyWriter call order (n<=5, thorough 6) for WriteMap on all five writers x 4 key sets (prefix pairs, case, non-ASCII, empty, reserved characters) x {flat, nested} x {no exclusion, one key excluded}; every permutation of parameter order through BuildQueryParams; every insertion order of keys into string / int64 / bytes / hash-colliding key sets; outputs must be byte-identical across orders with keys, parameters and ids ascending; Equal values (copies, map-insertion-order rebuilds) must encode identically in all 5 formats, also after a warm-up of unrelated encodes; supplementary (not exhaustive): 64 re-encodings from freshly built Go maps and an encoding digest compared across the shard processes; states = key sets / values, transitions = encode calls",
+    assumptions=["Go map iteration order cannot be owned: the layers that range over a Go map are covered by repetition only (labelled supplementary); a removed sort is caught deterministically by the seam check",
+                 "v2 only, as the property states"])
